@@ -370,9 +370,15 @@ impl Job {
 
     pub fn set_waiting_state(&mut self, task_id: JobTaskId) {
         let task = self.tasks.get_mut(&task_id).unwrap();
-        assert!(matches!(task.state, JobTaskState::Running { .. }));
-        task.state = JobTaskState::Waiting;
-        self.counters.n_running_tasks -= 1;
+        match task.state {
+            JobTaskState::Running { .. } => {
+                task.state = JobTaskState::Waiting;
+                self.counters.n_running_tasks -= 1;
+            }
+            // A multi-node task whose root worker was lost before it reported the start
+            JobTaskState::Waiting => {}
+            _ => panic!("Invalid task {task_id} state, expected Running or Waiting, got {:?}", task.state),
+        }
     }
 
     pub fn set_failed_state(
